@@ -169,6 +169,34 @@ class DevStream(RecStream):
         return super().readline(n)
 
 
+import socket as _socket  # noqa: E402
+
+
+class ChunkSocket(_socket.socket):
+    """A socket that delivers the data in chunks of a fixed size, then ends (close / timeout)."""
+
+    def __init__(self, data, chunk, end="close"):  # pylint: disable=super-init-not-called
+        self.data, self.chunk, self.p, self.after, self.end = data, chunk, 0, 0, end
+
+    def recv(self, n, *a):
+        if self.p >= len(self.data):
+            self.after += 1
+            if self.after > 64:
+                raise Horizon()
+            if self.end == "timeout":
+                raise TimeoutError("timed out")
+            return b""
+        out = self.data[self.p : self.p + min(n, self.chunk)]
+        self.p += len(out)
+        return out
+
+    def close(self):
+        pass
+
+    def __del__(self):
+        pass
+
+
 def sig(parsed):
     """Comparable form of a parsed item (O3): type name + text + bytes."""
     if parsed is None:
